@@ -123,6 +123,14 @@ def run_case(res, recipe, case, tmpdir, count=True):
         ds = MazeDataset(cfg=MazeDatasetConfig(name=recipe.get("name", "empty"), grid_n=int(recipe["grid_n"]), n_mazes=int(recipe.get("n_cfg", 0))), mazes=[])
     else:
         ds = U.build(recipe)
+        if recipe.get("reread"):
+            # second generation: the dataset under test was itself read from a file (metadata values have been through JSON: sets and
+            # tuples come back as lists), and must survive every format again
+            path0 = os.path.join(tmpdir, f"pre_{os.getpid()}_{res.evaluations}.zanj")
+            with _Threshold({"file-full": None, "file-minimal": 1}[recipe["reread"]], active=True):
+                ds.save(path0)
+                ds = MazeDataset.read(path0)
+            os.remove(path0)
     n = len(ds)
     orig_arrays = U.arrays_of(ds)
     pre_snap = U.snapshot(ds)
@@ -271,6 +279,12 @@ def dataset_recipes(tier, rng):
                 if tier != "thorough" and meta != "permaze" and name not in ("mixed", "len1", "len2", "longest-last"):
                     continue
                 out.append({"kind": "hand", "name": f"hand-{name}", "grid_n": g, "lengths": lengths, "seed": int(rng.integers(0, 10 ** 6)), "meta": meta})
+    # second-generation datasets: read from a full-format / minimal-format file first, then written and read in every format again
+    for gi, gen in enumerate(U.GENS):
+        for how in ("file-full", "file-minimal"):
+            if tier != "thorough" and how == "file-minimal" and gi % 2:
+                continue
+            out.append({"kind": "gen", "gen": gen, "grid_n": 3 + gi % 2, "n": 4, "seed": int(rng.integers(0, 10 ** 6)), "meta": "permaze", "reread": how})
     # empty datasets (stale configured count too)
     out.append({"kind": "empty", "name": "empty-ds", "grid_n": 3})
     out.append({"kind": "empty", "name": "empty-ds-stale-count", "grid_n": 2, "n_cfg": 5})
@@ -321,7 +335,7 @@ def run(tier, seed):
         rule="datasets from all five generators x grid_n 2..6 x lengths "
         + ("1..8" if tier == "thorough" else "a subset of 1..8 per grid")
         + " plus 99/100/101/120 mazes around the default threshold, EMPTY datasets under thresholds {None,0,1,default} in memory and through a file, and hand-made SolvedMaze lists (mixed lengths, length-1 start==end, length-2, longest first/last, "
-        "all-equal, full-grid snakes); metadata modes per-maze / collected / none / empty-collected; EACH written and read back as: "
+        "all-equal, full-grid snakes), and SECOND-GENERATION datasets (first saved to and read from a full-format / minimal-format file, then put through every format again); metadata modes per-maze / collected / none / empty-collected; EACH written and read back as: "
         "serialize()+load() under set_serialize_minimal_threshold in {None,1,len,len+1} (selected format checked: minimal iff threshold is not None and len>=threshold), "
         "explicit _serialize_full/_load_full, _serialize_minimal/_load_minimal, _serialize_minimal_soln_cat/_load_minimal_soln_cat (explicit minimal formats skipped for "
         "datasets with no metadata at all), and save()/read() through a real .zanj file under thresholds None (full), 1 (minimal) and the default; "
